@@ -194,6 +194,16 @@ func (c *Ctx) Violate(sig, detail string, cas interface{}, repro func() string) 
 
 func (c *Ctx) NViolations() int64 { return c.res.NViol }
 
+// SigRecorded: an artefact for this signature has been recorded by this shard already.
+func (c *Ctx) SigRecorded(sig string) bool {
+	for _, v := range c.res.Violations {
+		if v.Sig == sig {
+			return true
+		}
+	}
+	return false
+}
+
 // ---------------------------------------------------------------------------------------------
 
 type knownFinding struct {
